@@ -1,6 +1,7 @@
 /- Line-protocol driver for the KAURI models over exact rationals (C08, C09, C19). -/
 import GemVerif.DriverUtil
 import GemVerif.Model.Kauri
+import GemVerif.Lemmas.KauriC09
 
 open GemVerif GemVerif.Drv GemVerif.Model.Kauri
 
@@ -131,6 +132,43 @@ def step (t : Toks) : String :=
     let (draws, _) := readDraws t nd ([], t)
     let p : Params := ⟨maxClusters, maxDepth, minSplit, minLeaf, maxLeaves⟩
     let s : FitState Rat := fit κ X n p draws
+    let tr := s.tree
+    let ints (a : Array Int) := " ".intercalate (a.toList.map toString)
+    let nats (a : List Nat) := " ".intercalate (a.map toString)
+    s!"steps {s.steps} nleaves {s.nLeaves} nclusters {s.nClusters} labels {nats s.labels} leaves {nats s.leaves} " ++
+    s!"left {ints tr.left} right {ints tr.right} target {ints tr.target} " ++
+    s!"feat {" ".intercalate (tr.feat.toList.map optInt)} thr {" ".intercalate (tr.thr.toList.map optRat)} " ++
+    s!"gains {" ".intercalate (tr.gains.toList.map ratOut)} depths {nats tr.depths.toList} " ++
+    s!"score {ratOut (objective κ s.labels)} route {" ".intercalate ((List.range n).map fun i => toString (tr.route (X i) (tr.nNodes + 1) 0))}"
+  | "fith" =>
+    -- hybrid run of the fit loop: `m` scripted answers of `find_best_split` (gain leaf left right feature threshold),
+    -- applied by `KauriC09.stepWith` (= the loop body, `fitStep_eq_stepWith`), then the loop proper on `nd` recorded draws
+    let (n, t) := t.nat
+    let (d, t) := t.nat
+    let (κ, t) := readMat t n n
+    let (X, t) := readMat t n d
+    let (maxClusters, t) := t.nat
+    let (maxDepth, t) := t.nat
+    let (minSplit, t) := t.nat
+    let (minLeaf, t) := t.nat
+    let (maxLeaves, t) := t.nat
+    let (m, t) := t.nat
+    let rec readSplits (t : Toks) : Nat → List (Split Rat) × Toks → List (Split Rat) × Toks
+      | 0, acc => acc
+      | k + 1, (bs, t') =>
+        let (g, t1) := t'.rat
+        let (lf, t2) := t1.int
+        let (l, t3) := t2.int
+        let (r, t4) := t3.int
+        let (f, t5) := t4.int
+        let (th, t6) := t5.rat
+        readSplits t k (bs ++ [⟨g, lf, l, r, f, th⟩], t6)
+    let (bs, t) := readSplits t m ([], t)
+    let (nd, t) := t.nat
+    let (draws, _) := readDraws t nd ([], t)
+    let p : Params := ⟨maxClusters, maxDepth, minSplit, minLeaf, maxLeaves⟩
+    let s0 : FitState Rat := GemVerif.KauriC09.fitWith X n p bs
+    let s : FitState Rat := draws.foldl (fitStep κ X p) s0
     let tr := s.tree
     let ints (a : Array Int) := " ".intercalate (a.toList.map toString)
     let nats (a : List Nat) := " ".intercalate (a.map toString)
